@@ -674,4 +674,5 @@ func TestRegress(t *testing.T)    { run.Regress(t, spec) }
 func TestReplay(t *testing.T) {
 	run.ReplayOne(t, spec)
 	run.ReplayOne(t, concSpec)
+	run.ReplayOne(t, bigSpec)
 }
